@@ -49,6 +49,8 @@ RulesP == { SR(n, a, d, sg) : n \in BOOLEAN, a \in BOOLEAN, d \in BOOLEAN, sg \i
 RuleListsP == CASE PRuleMode = "single" -> { <<r>> : r \in { x \in RulesP : ~x.neg } }
                 [] PRuleMode = "pairq" -> { <<r, q>> : r \in { x \in RulesP : ~x.neg /\ Len(x.segs) = 1 }, q \in { x \in RulesP : x.neg /\ ~x.anch /\ Len(x.segs) <= 2 } }
                 [] PRuleMode = "pair" -> { <<r, q>> : r \in { x \in RulesP : ~x.neg }, q \in { x \in RulesP : x.neg } }
+                [] PRuleMode = "quad" -> { << SR(FALSE, a1, TRUE, <<d1>>), SR(TRUE, a1, FALSE, <<d1, <<"b">>>>), SR(FALSE, a2, TRUE, <<d2>>), SR(TRUE, a2, FALSE, <<d2, k>>) >>
+                                : d1 \in { <<"a">>, <<"a","b">> }, d2 \in { <<"a">>, <<"a","b">> }, k \in { <<"b">>, <<"a">>, <<"*">> }, a1 \in BOOLEAN, a2 \in BOOLEAN }
                 [] OTHER -> { <<>> }
 
 VARIABLES ptree, prules, pdone
